@@ -153,6 +153,20 @@ theorem error_from_a_blocking_slot (c : Chain) (ty src : Nat) (h : c.entry.1 = s
     cases h
     exact ⟨s, hs, rfl, h1⟩
 
+/-- whatever result the context carries when the check phase starts (a blocked verdict of an earlier entry on the same
+context, or one written by a preparation slot) is discarded: the entry is decided by its own check slots only -/
+theorem stale_result_discarded (c : Chain) (r0 : Option (Nat × Nat)) : c.entryOn r0 = c.entry := by
+  cases r0 <;> rfl
+
+/-- hence `blocked iff some check slot blocked` and `the error comes from a blocking slot` hold on a reused or dirtied context -/
+theorem blocked_iff_some_check_blocked_on (c : Chain) (r0 : Option (Nat × Nat)) :
+    (c.entryOn r0).1.isSome = true ↔ ∃ s ∈ c.checks, s.res.isBlocked = true := by
+  rw [stale_result_discarded]; exact blocked_iff_some_check_blocked c
+
+theorem error_from_a_blocking_slot_on (c : Chain) (r0 : Option (Nat × Nat)) (ty src : Nat) (h : (c.entryOn r0).1 = some (ty, src)) :
+    ∃ s ∈ c.checks, s.id = src ∧ s.res = .blocked ty := by
+  rw [stale_result_discarded] at h; exact error_from_a_blocking_slot c ty src h
+
 /-- number of pass-or-blocked notifications stat slot `i` received in a log -/
 def notes (i : Nat) (l : List Event) : Nat :=
   (l.filter (fun e => match e with
@@ -284,6 +298,7 @@ def exampleChain : Chain :=
     |>.addStat ⟨2, 1⟩)
 
 example : exampleChain.entry.1 = some (0, 3) := by decide
+example : (exampleChain.entryOn (some (9, 9))).1 = some (0, 3) := by decide
 example : (exampleChain.stats.map (·.id)).Nodup := by decide
 example : ∃ s ∈ exampleChain.checks, s.res.isBlocked = true := ⟨⟨1, 2, .blocked 1⟩, by decide, rfl⟩
 
